@@ -83,6 +83,8 @@ HIST = " In a quarter of the runs the schema is reached through a longer edit hi
 
 # sentences added to the level text as workloads were widened
 EXTRA = {
+    "C09": " One filter object serves all calls of a query and is then re-targeted (in-lists replaced by others of the same length) and used again; a third of the wrappers of a twin collection are added blank and filled afterwards.",
+    "C18": " For Type.Copy, what New() of the other type makes is compared before and after every type edit.",
     "C16": " In part of the builds the names are first held by other relationships, Rels() is looked at, they are removed and the real ones added.",
     "C15": " Now and then 8..24 types are added at once; the read-only clause includes the nil-ness of field maps. Now and then the caller re-keys a type's Rels map (a relationship is what its Rel value says, whatever key it sits under).",
     "C17": " At the end GetType().New() of every twin and New() of a type derived from the used soft type must be blank resources of their type. In half of the runs a third twin is a Wrapper made from a struct value (Wrap copies it); types may have relationships only.",
@@ -91,7 +93,7 @@ EXTRA = {
     "C02": HIST + " A refusal of a valid schema, URL or document is a violation.", "C05": HIST,
     "C03": HIST + " Documents may carry top-level links of their own; in a third of the runs the same resources are marshaled again under another prefix.",
     "C11": HIST + " Documents may carry top-level links of their own; names that need escaping in a quarter of the runs.",
-    "C12": HIST + " MarshalDocument is now and then given a page of 100..500 resources (rarely in the quick tier, one run in four in the thorough tier). A run that does not return within 120 s is reported as a violation (all checks).",
+    "C12": HIST + " URLs carry filter objects with fresh texts, inclusion paths and (a third of the schemas) a relationship without FromType; an eighth of the runs are cold starts (no library code runs in the driver before the tasks; soft-only schema; hand-written payloads). MarshalDocument is now and then given a page of 100..500 resources (rarely in the quick tier, one run in four in the thorough tier). A run that does not return within 120 s is reported as a violation (all checks).",
 }
 
 
@@ -146,7 +148,7 @@ def main():
         "checks": checks,
         "not_applicable": na,
         "notes": "All checks: exit 0 held / 1 VIOLATION line / 2 harness or build trouble. VERIF_SEED selects the batch; VERIF_REPO overrides /repo. "
-                 "Open known findings (KNOWN-FINDING lines, exit 0): see known_findings.json. Sensitivity: seeded/ (211 changes from independent sub-agents: 205 detected by a quick check, 1 more by the thorough tier, 5 not, see DESIGN.md section 9), "
+                 "Open known findings (KNOWN-FINDING lines, exit 0): see known_findings.json. Sensitivity: seeded/ (232 changes from independent sub-agents: 226 detected by a quick check, 1 more by the thorough tier, 5 not, see DESIGN.md section 9), "
                  "benign/ (36 behaviour-preserving refactors by independent sub-agents, all 14 checks silent on each), tools/revert_fixes.sh. fix: commits in /repo: " + "; ".join(fixes),
     }
     with open(os.path.join(VERIF, "MANIFEST.json"), "w") as f:
